@@ -14,10 +14,10 @@ call are (how many OS calls the buffers make necessary, when a read loop goes on
 `Ok(Rc::new(Object::Err(ErrorObj::IO(e))))` (error object), `.expect(..)` / `print!` (panic), or an
 `Err(String)` (runtime error).
 
-`program {}` is the code as it is; the flags of `Fixes` switch on the repairs proposed for F18/F31
-(`flush` returns the error object, `pcap_open` passes the error object of `open` through, `write` to
-stdout/stderr returns the error object, `read_to_string(stdin)` reads) — which of them the working
-tree contains is derived from the source by `tools/props/c22.py`; `Fixes.all` has all of them.
+Every failure branch of the eleven builtins is the error-object branch (history: `flush` used
+`expect`, `pcap_open` turned the error object of `open` into "unsupported argument", `write` to
+stdout/stderr went through `print!`, `read_to_string(stdin)` was rejected — repaired in e9b7dd0,
+4ce3547, 13af4ce, 4a4909b).
 -/
 namespace P2sh.IoFaults
 
@@ -102,20 +102,10 @@ inductive Call where
   | pcapWrite (h : Handle)
   deriving DecidableEq, Repr
 
-/-- repairs present in the working tree (all `false` = the unchanged tree) -/
-structure Fixes where
-  flush : Bool := false           -- `builtin_flush` returns the io error as an error object
-  pcapOpen : Bool := false        -- `builtin_pcap_open` returns the error object of `builtin_open`
-  writeStd : Bool := false        -- `builtin_write` to stdout/stderr returns the io error as an error object
-  stdinToString : Bool := false   -- `builtin_read_to_string` accepts stdin
-  deriving DecidableEq, Repr
-
-def Fixes.all : Fixes := { flush := true, pcapOpen := true, writeStd := true, stdinToString := true }
-
 def validMode (m : String) : Bool := m == "r" || m == "a" || m == "w" || m == "x"
 
-/-- the phases and the fault-free result of each builtin; `fx = {}`: the code as it is -/
-def program (fx : Fixes) (p : Params) : Call → List Phase × Outcome
+/-- the phases and the fault-free result of each builtin -/
+def program (p : Params) : Call → List Phase × Outcome
   | .open mode =>
     if validMode mode then ([⟨1, fun _ => false, .errorObject⟩], .ok .value)
     else ([], .rterr "invalid file open mode")
@@ -129,25 +119,24 @@ def program (fx : Fixes) (p : Params) : Call → List Phase × Outcome
     | _ => ([], .rterr "cannot read from this handle")
   | .readToString h =>
     match h with
-    | .reader => ([⟨p.fuel, p.cont, .errorObject⟩], .ok p.final)
-    | .stdin => if fx.stdinToString then ([⟨p.fuel, p.cont, .errorObject⟩], .ok p.final) else ([], .rterr "invalid file handle")
+    | .reader | .stdin => ([⟨p.fuel, p.cont, .errorObject⟩], .ok p.final)
     | _ => ([], .rterr "cannot read from this handle")
-  | .write h packet =>
+  | .write h _packet =>
     match h with
     | .writer => ([⟨p.osWrites, fun _ => true, .errorObject⟩], .ok .value)
     | .stdout | .stderr =>
-      -- a packet goes through `write_all`; anything else through `print!` / `eprint!`
-      ([⟨p.osWrites, fun _ => true, if packet || fx.writeStd then .errorObject else .panic "failed printing to stdout"⟩], .ok .value)
+      -- a packet goes through `write_all`, anything else through `write!`; both report `ErrorObj::IO`
+      ([⟨p.osWrites, fun _ => true, .errorObject⟩], .ok .value)
     | _ => ([], .rterr "cannot write to this handle")
   | .flush h =>
     match h with
     | .writer | .stdout | .stderr =>
-      ([⟨p.osWrites, fun _ => true, if fx.flush then .errorObject else .panic "Failed to flush file"⟩], .ok .null)
+      ([⟨p.osWrites, fun _ => true, .errorObject⟩], .ok .null)
     | _ => ([], .rterr "cannot flush this handle")
   | .pcapOpen mode =>
     if validMode mode then
-      -- `builtin_open`; an error object from it is not a file: "unsupported argument"
-      let openPhase : Phase := ⟨1, fun _ => false, if fx.pcapOpen then .errorObject else .runtimeError "unsupported argument"⟩
+      -- `builtin_open`; its error object is handed to the script (`Object::Err(_) => return Ok(obj)`)
+      let openPhase : Phase := ⟨1, fun _ => false, .errorObject⟩
       if mode == "r" then ([openPhase, ⟨p.fuel, p.cont, .errorObject⟩], .ok p.final)     -- read_exact of the 24-byte header
       else if mode == "a" then ([openPhase], .rterr "append mode not supported for pcap files")
       else ([openPhase], .ok .value)                                                     -- header into the BufWriter
@@ -170,17 +159,17 @@ def program (fx : Fixes) (p : Params) : Call → List Phase × Outcome
     | _ => ([], .ok .errOther)
 
 /-- one builtin call under oracle `o`: the outcome and the number of OS calls made -/
-def run (fx : Fixes) (p : Params) (c : Call) (o : Oracle) : Outcome × Nat :=
-  let pr := program fx p c
+def run (p : Params) (c : Call) (o : Oracle) : Outcome × Nat :=
+  let pr := program p c
   runPhases o pr.2 pr.1 0
 
 /-- a script: the outcomes of its calls in order, each under its own oracle; a runtime error or a
 panic ends it -/
-def runScript (fx : Fixes) : List (Params × Call × Oracle) → List Outcome
+def runScript : List (Params × Call × Oracle) → List Outcome
   | [] => []
   | (p, c, o) :: rest =>
-    match (run fx p c o).1 with
-    | .ok v => .ok v :: runScript fx rest
+    match (run p c o).1 with
+    | .ok v => .ok v :: runScript rest
     | x => [x]
 
 end P2sh.IoFaults
